@@ -738,6 +738,15 @@ def run(prog, rep):
     rep.floor("C16.7", 3)
 
 
+# objects are zero-filled at birth: the functions of these units rely on it for every field their constructors do not store
+_run_clauses = run
+
+
+def run(prog, rep):
+    _run_clauses(prog, rep)
+    from plint.wiring import check_zero_init
+    check_zero_init(rep, "C16.3", prog, ['pinifile.c'], 3)
+
 # generic robustness battery: renaming every local/parameter in these files must not change any verdict
 RENAME_LOCALS = ['src/pinifile.c']
 
